@@ -45,6 +45,24 @@ CHECKS["C12"] = dict(level="model_checking", design="4/C12, 3.4", technique="the
     text="TLC explores the Impl layer of the merger for every file set (one outcome per set: the ranges are ordered); the real merger is invoked repeatedly on every set of the universe and on random sets (30-200 times when several files carry extensions or conditions) and must return the identical model or the identical error list (messages, files, positions, order); all permutations of the file list must agree on success and, on success, on everything but the order of type definitions.",
     note=MG_NOTE + " Go map iteration cannot be forced; it is sampled by repetition.")
 
+DSL_NOTE = ("Trusted: TLC; spec/DslLayout.tla as a transcription of OpenFGAParser.g4 (separator kinds per rule) restricted to what lexer modes and the comment pre-pass admit (DESIGN 3.2); "
+            "the indexed document family. Bounded: a few thousand (quick) / tens of thousands (thorough) documents: every single style dimension and single local override on a block of documents, seeded random mixtures beyond.")
+CHECKS["C01"] = dict(level="model_checking", design="4/C01, 3.2", technique="documents rendered by TLC from the grammar-level layout specification; round-trip chain executed on the real transformers (same in-memory value, and JSON string API)",
+    text="TLC renders every document of the C03 schedule from spec/DslLayout.tla; for every document accepted as a full model the harness computes parse -> render the SAME in-memory model -> parse -> render -> parse -> render and the JSON-string chain: rendering must succeed, the re-parsed model must equal the first (expressions modulo outer whitespace), both APIs must print the same text, and from the second rendering on model and text must be exactly stable.",
+    note=DSL_NOTE + " Oracle: metamorphic on the real code; the byte-exact printer of spec/Dsl.tla is checked separately (C02/C14).")
+CHECKS["C02"] = dict(level="model_checking", design="4/C02, 3.2", technique="TLC enumerates all rewrite trees to depth 2 and checks ExpressibleIffPrintable on a transcription of the printer; every tree replayed through both JSON->DSL APIs and re-parsed",
+    text="spec/Dsl.tla transcribes the printer (PrintM, DirectAssignmentValidator) and states Expressible(t) and Norm(t) declaratively; TLC checks PrinterAccepts <=> Expressible and IsRelationAssignable <=> '[' printed on every tree (4,017 quick / 24,483 thorough: direct assignment anywhere, any multiplicity, single-child operators). Every tree, wrapped in a model with wildcards / usersets / conditions, goes through TransformJSONProtoToDSL and TransformJSONStringToDSL: success iff Expressible, otherwise the unsupported-nesting error, and the re-parsed output must equal NormM(M) as computed by TLC.",
+    note="Trusted: TLC, Expressible/Norm as a reading of the statement. Domain: operators have >= 1 child and exclusions both operands (degenerate models belong to C08). Depth <= 2.")
+CHECKS["C03"] = dict(level="model_checking", design="4/C03, 3.2", technique="grammar-level layout specification in TLA+ (token stream with separator kinds, global styles, local overrides) rendered by TLC; every document parsed by the real parser and compared with the model written",
+    text="spec/DslLayout.tla turns a document into the token sequence the grammar prescribes with the KIND of separator allowed after every lexeme, and renders it under a style (indentation, tabs, CRLF, blank lines, full-line and trailing comments incl. ones containing ' #', multi-line restriction lists, spaces around brackets/commas/colons, leading/trailing lines) plus up to two local overrides; documents cover keywords as names, dotted/slashed/dashed identifiers, redundant and doubled parentheses, all parameter types, multi-line condition bodies, module files. The real parser must accept every rendering and return exactly the model written.",
+    note=DSL_NOTE)
+CHECKS["C09"] = dict(level="model_checking", design="4/C09, 3.2", technique="violation catalogue as functions on documents in the TLA+ layout specification, injected at enumerated sites and rendered by TLC; the real parser must reject each",
+    text="13 structural violations (mixed operators at depth 0-2 for all operator pairs, misplaced direct assignment also inside parentheses, empty restriction list, wildcard+relation in both spellings, duplicate relation with five rewrite shapes at every position, duplicate condition / parameter, extend in a model, type extended twice, both / no header, container type without / with nested element type) are functions D -> D' in spec/DslLayoutMC.tla; TLC injects each at enumerated sites of documents with three name sets, renders them in the base, multi-line and random layouts, and the real parser must return a non-nil error and no model for every one.",
+    note=DSL_NOTE + " That a mutated document is outside the language is by construction of the catalogue (no recogniser in the specification).")
+CHECKS["C16"] = dict(level="model_checking", design="4/C16, 3.2, 3.4", technique="lexeme positions computed by the TLA+ layout specification compared with the positions the real parser reports; conflict lines computed by the Merge specification compared with the merger's",
+    text="DSL half: Render in spec/DslLayout.tla yields the zero-based (line, column) of every lexeme under every layout; for the listener-raised errors of the C09 catalogue the reported position must be the position of the offending name lexeme; every positioned error of every rejected catalogue document and of seeded truncations / one-character edits must lie inside the input. Merge half: spec/Merge.tla renders module files (tight and loose layout) and knows the line of every declaration; every conflict reported by the real merger over the Merge universe and random sets must name the file and a line on which the conflicting declaration stands.",
+    note=DSL_NOTE + " Columns of merge errors are not part of the statement and are not compared.")
+
 NOT_YET = "check not built yet in this round (see DESIGN.md section 9 for the order of work)"
 
 
